@@ -77,6 +77,7 @@ fn main() {
             let extra: Vec<String> = args.iter().skip(6).cloned().collect();
             let mut r = rng::Rng::new(seed);
             match family {
+                "bdd" if extra.iter().any(|x| x == "big") => fam_bdd::gen_big(&mut r, cases, size, &mut out),
                 "bdd" => fam_bdd::gen(&mut r, cases, size, &mut out),
                 "adf" => fam_adf::gen(&mut r, cases, size, &extra, &mut out),
                 "ng" => fam_ng::gen(&mut r, cases, size, &mut out),
